@@ -20,11 +20,11 @@ def CView : Pc → Pc
   | .pB3 k n => .pB3 k n
   | .eOrig c a => .eOrig c a
   | .eDel c o => .eDel c o
-  | .eMark c o => .eMark c o
-  | .eBack c o => .eBack c o
-  | .eNext c o p => .eNext c o p
-  | .eUnl c o p x => .eUnl c o p x
-  | .eFix c o p x => .eFix c o p x
+  | .eMark c o _ => .eMark c o 0
+  | .eBack c o _ => .eBack c o 0
+  | .eNext c o p _ => .eNext c o p 0
+  | .eUnl c o p x _ => .eUnl c o p x 0
+  | .eFix c o p x _ => .eFix c o p x 0
   | .eAlloc c o => .eAlloc c o
   | .eCons c o _ => .eAlloc c o
   | .eZh o _ => .eUnlock o
@@ -69,7 +69,7 @@ def NextIs (l : List Nat) (p x : Option Nat) : Prop :=
 
 /-- the node whose `deleted` flag is set while it is still linked -/
 def marking : Pc → Option Nat
-  | .eBack c _ | .eNext c _ _ | .eUnl c _ _ _ => some c
+  | .eBack c _ _ | .eNext c _ _ _ | .eUnl c _ _ _ _ => some c
   | _ => none
 
 def OrigOk (c : CSt) (o : Option Nat) : Prop := ∀ x, o = some x → x ∈ c.order
@@ -91,15 +91,15 @@ def WriterP (c : CSt) : Pc → Prop
   | .pB3 _ n => ∃ h, c.tail = some h ∧ h ∈ c.lst ∧ Below c.lst h = [n]
   | .eOrig x _ => x ∈ c.order
   | .eDel x o => x ∈ c.order ∧ OrigOk c o
-  | .eMark x o => x ∈ c.lst ∧ (c.nodes x).deleted = false ∧ OrigOk c o
-  | .eBack x o => x ∈ c.lst ∧ (c.nodes x).deleted = true ∧ OrigOk c o
-  | .eNext x o p => x ∈ c.lst ∧ (c.nodes x).deleted = true ∧ OrigOk c o ∧ NextIs c.lst p (some x)
-  | .eUnl x o p q =>
+  | .eAlloc x o => x ∈ c.lst ∧ (c.nodes x).deleted = false ∧ OrigOk c o
+  | .eMark x o _ => x ∈ c.lst ∧ (c.nodes x).deleted = false ∧ OrigOk c o
+  | .eBack x o _ => x ∈ c.lst ∧ (c.nodes x).deleted = true ∧ OrigOk c o
+  | .eNext x o p _ => x ∈ c.lst ∧ (c.nodes x).deleted = true ∧ OrigOk c o ∧ NextIs c.lst p (some x)
+  | .eUnl x o p q _ =>
       x ∈ c.lst ∧ (c.nodes x).deleted = true ∧ OrigOk c o ∧ NextIs c.lst p (some x) ∧ q = (Below c.lst x).head?
-  | .eFix x o p q =>
+  | .eFix x o p q _ =>
       x ∉ c.lst ∧ x ∈ c.order ∧ (c.nodes x).deleted = true ∧ OrigOk c o ∧ NextIs c.lst p q ∧
         (∀ b, q = some b → (c.nodes b).back = some x) ∧ (q = none → c.tail = some x)
-  | .eAlloc x o => x ∉ c.lst ∧ x ∈ c.order ∧ (c.nodes x).deleted = true ∧ OrigOk c o
   | .eUnlock o => OrigOk c o
   | .called .dtor => c.head = c.lst.head?
   | .dNext m => c.lst.head? = some m
@@ -111,11 +111,11 @@ def WriterP (c : CSt) : Pc → Prop
 def BackOk (c : CSt) (b : Nat) : Prop :=
   NextIs c.lst (c.nodes b).back (some b) ∨
     (∃ t k n, c.vpc t = .pF3 k n ∧ c.lst.head? = some b) ∨
-    (∃ t x o p, c.vpc t = .eFix x o p (some b))
+    (∃ t x o p, c.vpc t = .eFix x o p (some b) 0)
 
 def TailOk (c : CSt) : Prop :=
   NextIs c.lst c.tail none ∨ (∃ t k n, c.vpc t = .pE2 k n) ∨ (∃ t k n, c.vpc t = .pB3 k n) ∨
-    (∃ t x o p, c.vpc t = .eFix x o p none)
+    (∃ t x o p, c.vpc t = .eFix x o p none 0)
 
 structure InvCv (c : CSt) : Prop where
   lstNd : c.lst.Nodup
@@ -162,10 +162,10 @@ namespace ConcVerif.Rcu
 
 /-- the exceptions of `BackOk` / `TailOk` that a given view is responsible for -/
 def BackExcV (c : CSt) (v : Pc) (b : Nat) : Prop :=
-  (∃ k n, v = .pF3 k n ∧ c.lst.head? = some b) ∨ (∃ x o p, v = .eFix x o p (some b))
+  (∃ k n, v = .pF3 k n ∧ c.lst.head? = some b) ∨ (∃ x o p, v = .eFix x o p (some b) 0)
 
 def TailExcV (v : Pc) : Prop :=
-  (∃ k n, v = .pE2 k n) ∨ (∃ k n, v = .pB3 k n) ∨ (∃ x o p, v = .eFix x o p none)
+  (∃ k n, v = .pE2 k n) ∨ (∃ k n, v = .pB3 k n) ∨ (∃ x o p, v = .eFix x o p none 0)
 
 theorem backOk_iff (c : CSt) (b : Nat) :
     BackOk c b ↔ NextIs c.lst (c.nodes b).back (some b) ∨ ∃ t, BackExcV c (c.vpc t) b := by
@@ -693,8 +693,8 @@ theorem invC_pB2 {s : St} {t : Tid} (ha : InvA s) (h : InvC s) {k : Op} {n h0 : 
     exact ⟨h0, g8, List.mem_append_left _ g6, by rw [below_append_singleton g6, hbel0]; rfl⟩
 
 /-- `eMark`: `deleted = true` -/
-theorem invC_eMark {s : St} {t : Tid} (ha : InvA s) (h : InvC s) {c : Nat} {o : Option Nat} (hpc : s.pc t = .eMark c o) :
-    InvC ((s.setDel c true).setPc t (.eBack c o)) := by
+theorem invC_eMark {s : St} {t : Tid} (ha : InvA s) (h : InvC s) {c z : Nat} {o : Option Nat} (hpc : s.pc t = .eMark c o z) :
+    InvC ((s.setDel c true).setPc t (.eBack c o z)) := by
   have hw : holdsW (s.pc t) = true := by simp [hpc, holdsW]
   obtain ⟨hdt, hoth⟩ := others_cidle ha hw
   obtain ⟨f5, f7, f8, f9⟩ := invC_writer_facts ha h hw
@@ -736,11 +736,11 @@ theorem invC_eMark {s : St} {t : Tid} (ha : InvA s) (h : InvC s) {c : Nat} {o : 
 
 /-- `eUnl`: the unlink store (`oldPrev->next.store(oldNext)` or `m_head.store(oldNext)`) -/
 theorem invC_eUnl {s : St} {t : Tid} (ha : InvA s) (h : InvC s) {c : Nat} {o p x : Option Nat}
-    (hpc : s.pc t = .eUnl c o p x) (nodes' : Nat → Node) (head' : Option Nat)
+    {z : Nat} (hpc : s.pc t = .eUnl c o p x z) (nodes' : Nat → Node) (head' : Option Nat)
     (hup : match p with
       | some pp => nodes' = upd s.nodes pp { s.nodes pp with next := x } ∧ head' = s.head
       | none => nodes' = s.nodes ∧ head' = x) :
-    InvC ({ s with nodes := nodes', head := head', lst := s.lst.erase c }.setPc t (.eFix c o p x)) := by
+    InvC ({ s with nodes := nodes', head := head', lst := s.lst.erase c }.setPc t (.eFix c o p x z)) := by
   have hw : holdsW (s.pc t) = true := by simp [hpc, holdsW]
   obtain ⟨hdt, hoth⟩ := others_cidle ha hw
   obtain ⟨f5, f7, f8, f9⟩ := invC_writer_facts ha h hw
@@ -901,11 +901,11 @@ theorem invC_eUnl {s : St} {t : Tid} (ha : InvA s) (h : InvC s) {c : Nat} {o p x
 
 /-- `eFix`: `oldNext->back.store(oldPrev)` or `m_tail.store(oldPrev)` -/
 theorem invC_eFix {s : St} {t : Tid} (ha : InvA s) (h : InvC s) {c : Nat} {o p x : Option Nat}
-    (hpc : s.pc t = .eFix c o p x) (nodes' : Nat → Node) (tail' : Option Nat)
+    {z : Nat} (hpc : s.pc t = .eFix c o p x z) (nodes' : Nat → Node) (tail' : Option Nat)
     (hup : match x with
       | some xx => nodes' = upd s.nodes xx { s.nodes xx with back := p } ∧ tail' = s.tail
       | none => nodes' = s.nodes ∧ tail' = p) :
-    InvC ({ s with nodes := nodes', tail := tail' }.setPc t (.eAlloc c o)) := by
+    InvC ({ s with nodes := nodes', tail := tail' }.setPc t (.eZh o z)) := by
   have hw : holdsW (s.pc t) = true := by simp [hpc, holdsW]
   obtain ⟨hdt, hoth⟩ := others_cidle ha hw
   obtain ⟨f5, f7, f8, f9⟩ := invC_writer_facts ha h hw
@@ -967,7 +967,7 @@ theorem invC_eFix {s : St} {t : Tid} (ha : InvA s) (h : InvC s) {c : Nat} {o p x
     · simp [marking] at f
   · intro n hn y hy; rw [hnx] at hy; exact hval0 n hn y hy
   · simp only [WriterP, cview_lst, cview_nodes, cview_order, setPc_lst, setPc_nodes, setPc_order]
-    exact ⟨g1, g2, by rw [hdl]; exact g3, g4⟩
+    exact g4
 
 /-- the iterator of `t` is assigned a node of `order` (or end / nothing); pcs move between idle views -/
 theorem invC_setIt {s : St} {t : Tid} (h : InvC s) (v : Option (Option Nat)) (p' : Pc)
@@ -1101,6 +1101,18 @@ theorem invC_step_alo {s s' : St} {t : Tid} {e : Ev} (ha : InvA s) (h : InvC s) 
     · simp only [WriterP, cview_order, cview_nN, setPc_order, setPc_nN, setNled_order, setNled_nN]
       exact ⟨fun hc => by have := hord _ hc; omega, by omega⟩
 
+theorem invC_step_afl {s s' : St} {t : Tid} {e : Ev} (ha : InvA s) (h : InvC s) (hs : Step s t e s') (he : e.kind = .afl) : InvC s' := by
+  cases hs <;> cases he
+  all_goals (try (frameC h; done))
+  case regFail k w hpc hk hh =>
+    rcases hk with rfl | ⟨f, em, v, rfl⟩ <;> frameC h
+  case eAloFail c orig hpc =>
+    refine invC_pc h _ ?_ ?_ ?_ ?_
+    · intro _ b _ hb; rcases hb with ⟨_, _, hc, _⟩ | ⟨_, _, _, hc⟩ <;> simp [hpc, CView] at hc
+    · intro _ hb; rcases hb with ⟨_, _, hc⟩ | ⟨_, _, hc⟩ | ⟨_, _, _, hc⟩ <;> simp [hpc, CView] at hc
+    · intro _ x hx; simp [hpc, CView, marking] at hx
+    · simp only [CView, WriterP]
+
 theorem invC_step_con {s s' : St} {t : Tid} {e : Ev} (ha : InvA s) (h : InvC s) (hs : Step s t e s') (he : e.kind = .con) : InvC s' := by
   cases hs <;> cases he
   all_goals (try (frameC h; done))
@@ -1117,11 +1129,11 @@ theorem invC_step_con {s s' : St} {t : Tid} {e : Ev} (ha : InvA s) (h : InvC s) 
   case eCon c orig z hpc =>
     have hwr := h.wr t
     simp only [cview_vpc, hpc, CView, WriterP] at hwr
-    refine invC_of_view (invC_pc (t := t) h (.eZh orig z) ?_ ?_ ?_ ?_) rfl
+    refine invC_of_view (invC_pc (t := t) h (.eMark c orig z) ?_ ?_ ?_ ?_) rfl
     · intro _ b _ hb; rcases hb with ⟨_, _, hc, _⟩ | ⟨_, _, _, hc⟩ <;> simp [hpc, CView] at hc
     · intro _ hb; rcases hb with ⟨_, _, hc⟩ | ⟨_, _, hc⟩ | ⟨_, _, _, hc⟩ <;> simp [hpc, CView] at hc
     · intro _ x hx; simp [hpc, CView, marking] at hx
-    · simp only [CView, WriterP]; exact hwr.2.2.2
+    · simp only [CView, WriterP]; exact hwr
 
 theorem invC_step_des {s s' : St} {t : Tid} {e : Ev} (ha : InvA s) (h : InvC s) (hs : Step s t e s') (he : e.kind = .des) : InvC s' := by
   cases hs <;> cases he
@@ -1294,7 +1306,7 @@ theorem invC_step_ald {s s' : St} {t : Tid} {e : Ev} (ha : InvA s) (h : InvC s) 
       cases adv with
       | true => simp at hy; exact h.val c hwr y hy
       | false => simp at hy; subst hy; exact hwr
-  case eBack c orig o hpc ho =>
+  case eBack c orig z o hpc ho =>
     have hw : holdsW (s.pc t) = true := by simp [hpc, holdsW]
     obtain ⟨f5, f7, f8, f9⟩ := invC_writer_facts ha h hw
     have hwr := h.wr t
@@ -1308,7 +1320,7 @@ theorem invC_step_ald {s s' : St} {t : Tid} {e : Ev} (ha : InvA s) (h : InvC s) 
       rcases f7 c hwr.1 with f | f
       · exact f
       · rcases f with ⟨_, _, hc, _⟩ | ⟨_, _, _, hc⟩ <;> simp [hpc, CView] at hc
-  case eNext c orig p o hpc ho =>
+  case eNext c orig p z o hpc ho =>
     have hwr := h.wr t
     simp only [cview_vpc, hpc, CView, WriterP] at hwr
     have hnx0 : ∀ a ∈ s.lst, (s.nodes a).next = (Below s.lst a).head? := h.nx
@@ -1351,13 +1363,13 @@ theorem invC_step_ast {s s' : St} {t : Tid} {e : Ev} (ha : InvA s) (h : InvC s) 
   case pF2 k n h0 o hpc ho => exact invC_pF2 ha h hpc
   case pF3 k n o hpc ho => exact invC_pF3 ha h hpc
   case pB2 k n h0 o hpc ho => exact invC_pB2 ha h hpc
-  case eUnlPrev c orig pp x o hpc ho =>
+  case eUnlPrev c orig pp x z o hpc ho =>
     exact invC_of_view (invC_eUnl (t := t) ha h hpc (upd s.nodes pp { s.nodes pp with next := x }) s.head ⟨rfl, rfl⟩) rfl
-  case eUnlHead c orig x o hpc ho =>
+  case eUnlHead c orig x z o hpc ho =>
     exact invC_of_view (invC_eUnl (t := t) ha h hpc s.nodes x ⟨rfl, rfl⟩) rfl
-  case eFixNext c orig p xx o hpc ho =>
+  case eFixNext c orig p xx z o hpc ho =>
     exact invC_of_view (invC_eFix (t := t) ha h hpc (upd s.nodes xx { s.nodes xx with back := p }) s.tail ⟨rfl, rfl⟩) rfl
-  case eFixTail c orig p o hpc ho =>
+  case eFixTail c orig p z o hpc ho =>
     exact invC_of_view (invC_eFix (t := t) ha h hpc s.nodes p ⟨rfl, rfl⟩) rfl
 
 theorem invC_step_cas {s s' : St} {t : Tid} {e : Ev} (ha : InvA s) (h : InvC s) (hs : Step s t e s') (he : e.kind = .cas) : InvC s' := by
@@ -1396,7 +1408,7 @@ theorem invC_step_plain {s s' : St} {t : Tid} {e : Ev} (ha : InvA s) (h : InvC s
       rcases f9 c hwr.1 with f | f
       · exact f.2 hv
       · simp [hpc, CView, marking] at f
-  case eMark c orig hpc => exact invC_eMark ha h hpc
+  case eMark c orig z hpc => exact invC_eMark ha h hpc
 
 theorem invC_step {s s' : St} {t : Tid} {e : Ev} (ha : InvA s) (h : InvC s) (hs : Step s t e s') : InvC s' := by
   cases hk : e.kind
@@ -1406,6 +1418,7 @@ theorem invC_step {s s' : St} {t : Tid} {e : Ev} (ha : InvA s) (h : InvC s) (hs 
   · exact invC_step_mlk ha h hs hk
   · exact invC_step_mul ha h hs hk
   · exact invC_step_alo ha h hs hk
+  · exact invC_step_afl ha h hs hk
   · exact invC_step_con ha h hs hk
   · exact invC_step_des ha h hs hk
   · exact invC_step_fre ha h hs hk
